@@ -4,7 +4,7 @@ SPEC = dict(
     test="TestVerifC09",
     level="exploration",
     workers=16,
-    deadline={"quick": 170, "thorough": 1700},
+    deadline={"quick": 420, "thorough": 2400},
     rule="wip",
     assumptions=[],
 )
